@@ -65,7 +65,7 @@ def run_one(entry, with_tests):
         env = dict(os.environ, CJSA_REPO=d, CJSA_OUT=d)
         outs = []
         verdict = 'OK'
-        for prop in entry['props']:
+        for pi, prop in enumerate(entry['props']):
             r = subprocess.run([os.path.join(HERE, 'check'), prop], env=env, stdout=subprocess.PIPE,
                                stderr=subprocess.STDOUT, text=True)
             out = r.stdout
@@ -73,7 +73,7 @@ def run_one(entry, with_tests):
                 good = r.returncode == 1 and 'VIOLATION property=%s' % prop in out
                 if good and entry.get('fn'):
                     good = any(entry['fn'] in l for l in out.split('\n') if not l.startswith('VIOLATION'))
-                if good and entry.get('rule'):
+                if good and entry.get('rule') and pi == 0:
                     good = any(entry['rule'] in l for l in out.split('\n'))
             else:
                 good = r.returncode == 0
